@@ -35,6 +35,46 @@ def run(chk: Check, proj: Project) -> None:
     s3(chk, proj, w, m, cls)
     s4(chk, proj, w)
     s5(chk, proj, w, m)
+    s6(chk, proj, w, m)
+
+
+def s6(chk: Check, proj: Project, w, m) -> None:
+    chk.rule("S6", "the tag dict of a Library is shared (other registries, other apps): deletions from it are guarded by membership; an explicitly EMPTY protected list means 'protect nothing' (default substituted only for None); a callable settings input is evaluated on every access")
+    n = 0
+    for q, f in sorted(m.defs.items()):
+        if not isinstance(f, ast.FunctionDef):
+            continue
+        for d in [x for x in ast.walk(f) if isinstance(x, ast.Delete)]:
+            for t in d.targets:
+                if isinstance(t, ast.Subscript) and norm(t.value).endswith("library.tags"):
+                    n += 1
+                    k = norm(t.slice)
+                    ok = any(pol and tt == f"{k} in {norm(t.value)}" for tt, pol in cond_atoms(d))
+                    chk.ob("S6", f"component_registry:{q}:del-library-tag-guarded", m.loc(d), ok, f"`{short(d)}` runs only if `{k} in {norm(t.value)}`" if ok else
+                           f"`{short(d)}` is not guarded by a membership test: when another registry that shares this Library has already removed the tag, unregister() raises KeyError half-way and the entry stays registered for good")
+    chk.floor("S6", n, 1)
+    lm = proj.mod("library")
+    f = lm.func("mark_protected_tags")
+    chk.analysed(fkey(lm, f))
+    bad = []
+    for b in [x for x in ast.walk(f) if isinstance(x, ast.BoolOp) and isinstance(x.op, ast.Or)]:
+        if isinstance(b.values[0], ast.Name) and b.values[0].id in params(f):
+            okf, val = proj.try_fold(lm, b.values[-1])
+            if not okf or (hasattr(val, "__len__") and len(val) > 0):
+                bad.append(b)
+    chk.ob("S6", "library:mark_protected_tags:default-only-for-None", lm.loc(bad[0]) if bad else lm.loc(f), not bad,
+           "the default list is substituted only when the argument is None" if not bad else
+           f"`{short(bad[0])}` substitutes the (non-empty) default for EVERY falsy argument: mark_protected_tags(lib, []) - 'protect nothing' - protects the default names, so registering 'slot' on that library raises TagProtectedError")
+    sp = m.func("ComponentRegistry.settings")
+    chk.analysed(fkey(m, sp))
+    cs = [c for c in ast.walk(sp) if isinstance(c, ast.Call) and norm(c.func) == "self._settings_input"]
+    if not cs:
+        chk.undecided("S6", "component_registry:settings:callable-evaluated-per-access", m.loc(sp), "call of the settings getter not found")
+    else:
+        ok = all(enclosing_func(c) is not sp for c in cs)
+        chk.ob("S6", "component_registry:settings:callable-evaluated-per-access", m.loc(cs[0]), ok,
+               "self._settings_input(self) is called inside the getter closure, i.e. on every access" if ok else
+               "the settings callable is evaluated once, outside the getter closure, and its result is frozen: after the application switches the tag formatter, register() still computes tags with the old one (Library.tags and the protected-name check no longer match the registry)")
 
 
 def s5(chk: Check, proj: Project, w, m) -> None:
